@@ -20,9 +20,12 @@ def isLeap (y : Nat) : Bool := y % 4 == 0 && (y % 100 != 0 || y % 400 == 0)
 
 def yearLen (y : Nat) : Nat := if isLeap y then 366 else 365
 
-def monthLen (y m : Nat) : Nat :=
-  if m = 2 then (if isLeap y then 29 else 28)
+/-- length of month `m` in a leap / common year -/
+def monthLenL (leap : Bool) (m : Nat) : Nat :=
+  if m = 2 then (if leap then 29 else 28)
   else if m = 4 ∨ m = 6 ∨ m = 9 ∨ m = 11 then 30 else 31
+
+def monthLen (y m : Nat) : Nat := monthLenL (isLeap y) m
 
 /-- days of the year before the first of month `m` (1-based) -/
 def daysBeforeMonth (leap : Bool) (m : Nat) : Nat :=
